@@ -14,6 +14,7 @@ import (
 	"strconv"
 	"strings"
 	"sync"
+	"sync/atomic"
 
 	"github.com/prometheus/client_golang/prometheus"
 	"github.com/prometheus/client_golang/prometheus/push"
@@ -69,6 +70,8 @@ func (rc *recorder) take() []seenReq {
 	defer rc.mu.Unlock()
 	return rc.reqs
 }
+
+var accepted int64 // connections accepted by the resetting peer
 
 var errBoom = errors.New("verif: transport failure")
 
@@ -475,7 +478,7 @@ func cerrTerm(err, sticky, gatherErr error) string {
 func hdrTerm(h http.Header, fromServer bool) string {
 	keys := make([]string, 0, len(h))
 	for k := range h {
-		if fromServer && (k == "Accept-Encoding" || k == "Content-Length" || k == "User-Agent") {
+		if fromServer && (k == "Accept-Encoding" || k == "Content-Length" || k == "User-Agent" || k == "Connection") {
 			continue // added by net/http's transport
 		}
 		keys = append(keys, k)
@@ -526,8 +529,15 @@ func bodyOK(sr seenReq, want []*dto.MetricFamily) bool {
 			return false
 		}
 		for _, w := range want {
+			// the text format 0.0.4 has no place for a counter's created timestamp
+			wc := proto.Clone(w).(*dto.MetricFamily)
+			for _, m := range wc.Metric {
+				if m.Counter != nil {
+					m.Counter.CreatedTimestamp = nil
+				}
+			}
 			g, ok := got[w.GetName()]
-			if !ok || !proto.Equal(g, w) {
+			if !ok || !proto.Equal(g, wc) {
 				return false
 			}
 		}
@@ -659,6 +669,7 @@ func runCase(e *env, cs *caseSpec) (term string, nontrivial bool, tags []string)
 			e.rec.reset(500) // never used: such statuses are only given to the custom doer
 		}
 		d.reqs, d.status = nil, c.status
+		acc0 := atomic.LoadInt64(&accepted)
 		var err error
 		switch c.kind {
 		case 0:
@@ -681,7 +692,7 @@ func runCase(e *env, cs *caseSpec) (term string, nontrivial bool, tags []string)
 			sent = len(seen)
 			fromServer = true
 		case tkReset:
-			sent = -1
+			sent = int(atomic.LoadInt64(&accepted) - acc0) // connections the peer accepted (and then reset)
 		default:
 			seen = d.reqs
 			sent = len(seen)
@@ -766,6 +777,7 @@ func runC15(c *cli.Ctx) error {
 			if err != nil {
 				return
 			}
+			atomic.AddInt64(&accepted, 1) // before the close the client is waiting for
 			conn.Close()
 		}
 	}()
